@@ -36,7 +36,7 @@ TECHNIQUE = "composition of Lean theorems (C01/C02/C11/C13) + end-to-end differe
 ASSUMPTIONS = []
 
 
-def third_party_font(rng):
+def third_party_font(rng, force_notdef=False):
     """layout-rich font + COLRv1 graphs over its glyphs"""
     from fontTools.colorLib import builder
     from fontTools import ttLib
@@ -53,7 +53,10 @@ def third_party_font(rng):
             return {"Format": 1, "Layers": [g(depth - 1) for _ in range(rng.randint(1, 3))]}
         return C13.gen_transform_wrap(rng, g(depth - 1))
 
-    glyphs = {name: g(rng.randint(1, 3)) for name in rng.sample(list("abcdefghijkl"), 3)}
+    names = rng.sample(list("abcdefghijkl"), 3)
+    if rng.random() < 0.4 or force_notdef:
+        names[0] = ".notdef"   # a coloured .notdef keeps gid 0, so the colour glyphs cannot be one run of consecutive gids
+    glyphs = {name: g(rng.randint(1, 3)) for name in names}
     font["COLR"] = builder.buildCOLR(glyphs, version=1)
     pals = [C13.PALETTE0] + ([[(c[1], c[2], c[0], 1.0) for c in C13.PALETTE0]] if rng.random() < 0.5 else [])
     font["CPAL"] = builder.buildCPAL(pals)
@@ -70,7 +73,7 @@ def one(job):
     try:
         if kind == "third-party":
             try:
-                data, _ = third_party_font(rng)
+                data, _ = third_party_font(rng, force_notdef=opts.get("notdef", False))
             except Exception as e:  # noqa
                 return {"kind": kind, "seed": seed, "skip": "gen:" + type(e).__name__}
         else:
@@ -111,6 +114,28 @@ def compare(ctx, res, r):
         res.add_cex("the original colour table is gone", {"tables": sorted(F.keys())}, site("original-gone"))
     if r["opts"].get("bitmaps") and not ("CBDT" in F and "CBLC" in F):
         res.add_cex("--bitmaps did not add CBDT/CBLC", {"tables": sorted(F.keys())}, site("bitmaps"))
+    elif r["opts"].get("bitmaps"):
+        # every colour glyph is reachable through exactly one index subtable entry and has image data (all colour tables paint it)
+        colour = set()
+        if "COLR" in F:
+            colour = ({rec.BaseGlyph for rec in F["COLR"].table.BaseGlyphList.BaseGlyphPaintRecord} if F["COLR"].version else set(F["COLR"].ColorLayers))
+        seen = {}
+        for si, strike in enumerate(F["CBLC"].strikes):
+            b = strike.bitmapSizeTable
+            names = [n for st in strike.indexSubTables for n in st.names]
+            gids = [F.getGlyphID(n) for n in names]
+            if gids and (b.startGlyphIndex != gids[0] or b.endGlyphIndex != gids[-1] or gids != list(range(gids[0], gids[0] + len(gids)))):
+                res.add_cex("CBLC strike does not index one run of consecutive glyph ids", {"strike": si, "gids": gids,
+                            "start": b.startGlyphIndex, "end": b.endGlyphIndex}, site("bitmap-run"))
+            for n in names:
+                seen[n] = seen.get(n, 0) + 1
+                if not F["CBDT"].strikeData[si].get(n) or not getattr(F["CBDT"].strikeData[si][n], "imageData", b""):
+                    res.add_cex(f"colour glyph {n} has no image data in its strike", {"glyph": n}, site("bitmap-data"))
+        res.stat("bitmaps:strikes", len(F["CBLC"].strikes))
+        bad = sorted(g for g in colour if seen.get(g, 0) != 1) + sorted(g for g in seen if seen[g] != 1 and g not in colour)
+        if bad:
+            res.add_cex("with --bitmaps a colour glyph has no bitmap or more than one: " + ",".join(bad[:6]),
+                        {"bitmaps_per_glyph": {g: seen.get(g, 0) for g in bad}}, site("bitmap-coverage"))
     if not keep:
         if F["post"].formatType != 3.0:
             res.add_cex("glyph names were not stripped", {}, site("names"))
@@ -184,6 +209,9 @@ def suite(ctx, res, n):
             opts["keep"] = False
         if k % 7 == 3:
             opts["bitmaps"] = True
+        if kind == "third-party" and k % 4 == 1:
+            opts["bitmaps"] = True
+            opts["notdef"] = True   # colour glyphs in two runs of consecutive gids -> two CBLC strikes
         jobs.append((kind, ctx.rng.getrandbits(32), opts))
     with ThreadPoolExecutor(max_workers=8) as ex:
         results = list(ex.map(one, jobs))
